@@ -6,7 +6,7 @@ from common import sh2
 LEVEL = "proof"
 MANIFEST = {
     "technique": "Coq proof over a hand-written Gallina model of the bits package + differential correspondence (extracted OCaml vs Go)",
-    "level_text": "Theorems (coq/c13/C13Theorems.v, 42 - the C13b ones group related statements -, no length bound on byte strings or op sequences): the EBSP writer state machine "
+    "level_text": "Theorems (coq/c13/C13Theorems.v, 43 - the C13b ones group related statements -, no length bound on byte strings or op sequences): the EBSP writer state machine "
                   "equals the one-shot escape spec, escape output has no forbidden triple, every 00 00 03 is an inserted escape and every "
                   "inserted byte is required, unescape inverts escape. Exact domain of the 64-bit accumulators: Write(v, n) appends exactly "
                   "the n low bits whenever pending + n <= 64 (every n <= 57 at any alignment, n = 0 appends nothing, up to 64 at a byte "
@@ -30,9 +30,9 @@ MANIFEST = {
                   "Reader.Read/ReadFlag/ReadSigned) returns the zero value and leaves error, accumulator and counters untouched; the read "
                   "that fails returns 0 having consumed every input byte, and fails exactly when fewer than n bits are left. Writer / "
                   "FixedSliceWriter.WriteBits+FlushBits round-trip through Reader; FixedSliceWriter capacity / stickiness / byte methods, "
-                  "ByteWriter prefix-at-limit. Only explored (correspondence + search on the real code, not proved): widths 65..70, the plain "
-                  "Reader.Read beyond 56 bits (same refill loop without escapes; proved for the EBSP reader), reads of Exp-Golomb "
-                  "prefixes longer than 57 bits (malformed streams). The model "
+                  "ByteWriter prefix-at-limit; the same for the plain Reader.Read, and Reader.ReadSigned(n) returns the next n bits as a "
+                  "two's-complement number whenever n + k <= 64. Only explored (correspondence + search on the real code, not "
+                  "proved): Write with widths 65..70, reads of Exp-Golomb prefixes longer than 57 bits (malformed streams). The model "
                   "is tied to /repo on every run by running it (extracted) against the real bits package on exhaustive small byte "
                   "strings, every width 0..70 after every number of pending bits, and random op sequences.",
     "level_note": "Trusted: Coq kernel, extraction (ExtrOcamlBasic), the OCaml/Go glue, and the correspondence being only as good as "
